@@ -131,7 +131,13 @@ def main():
             return 3
         obligations += ex['obligations']
         discharged += ex['discharged']
-        by_backend['table-analysis/lean'] += ex['discharged']
+        if ex.get('by_backend'):
+            for be_, n_ in ex['by_backend'].items():
+                by_backend[be_] += n_
+        else:
+            by_backend['table-analysis/lean'] += ex['discharged']
+        for u_ in ex.get('undecided', []):
+            undecided.append(({'contract': 'lemma', 'case': {}, 'receiver': None}, {'id': u_, 'status': 'undecided', 'tried': [], 'seconds': 0}))
         trusted |= set(ex['trusted'])
         extra_notes = ex['notes']
         for v in ex['violations']:
